@@ -1,7 +1,7 @@
 from vlib.common import nt_sched, NOTE, SCHED_TRUSTED
 
 _CSYNC_COQ = ["Common/ListLemmas.v", "CSync/RWModel.v", "CSync/RWProofs.v", "CSync/RWSpec.v", "CSync/MModel.v", "CSync/MProofs.v", "CSync/MSpec.v"]
-_CSYNC_RULE = ("implementation-driven random gate-level histories (Lock/TryLock read+write, one critical section at a time, "
+_CSYNC_RULE = ("implementation-driven random gate-level histories (Lock/TryLock read+write, Locker.Lock/Unlock on the write and read lockers, one critical section at a time, "
                "context cancellations, release calls incl. double releases) + corpus; distinct = distinct event sequence; "
                "non-trivial = >= 8 events and some actor observed blocked")
 _CSYNC_MODELS = [
@@ -23,7 +23,7 @@ PROPS = {
                  "read holder; release idempotent; failed TryLock / cancelled Lock inert. Models tied to the code by scheduled differential correspondence: "
                  "the harness drives the real locks one critical section at a time (synctest) and the extracted model must produce the same status vectors; "
                  "exclusion monitors are evaluated on the implementation's observations.",
-            note=NOTE + "Gate placement and the atomicity of a Broadcast critical section are trusted (C13 argues the lock discipline). Locker wrappers are exercised by the harness only through Lock/release.",
+            note=NOTE + "Gate placement and the atomicity of a Broadcast critical section are trusted (C13 argues the lock discipline). The sync.Locker wrappers (Locker(), RLocker(), MutexLocker) are in the codec and the harness as Lock-with-background-context plus a stack of release functions (events 6/7; monitor clause 1/3: Unlock panics exactly when the locker holds nothing).",
             technique="Coq inductive invariant over an interleaving model + schedule-controlled differential correspondence against the Go code",
         ),
     ),
